@@ -19,6 +19,9 @@ func runC05(c *an.Ctx) string {
 	r05Constructors(c)
 	r05Prepare(c)
 	r05Templates(c)
+	r024WireKeys(c, "R05.10") // error attributes in headers/cookies use the wire name on both sides (shared with C02/C03)
+	r15ResponseDecoder(c)     // shared with C15 (rule id R15.1): the client decodes the error body with the codec of the announced type
+	r181MergeErrors(c)        // shared with C18 (rule id R18.1): merging never drops an error already recorded
 	return explanationC05
 }
 
